@@ -342,7 +342,7 @@ pub trait Datamodel {
                             Ok(value) => {
                                 values.push(ParamPair::new_moved(
                                     param.name.clone(),
-                                    value.lock().unwrap().clone(),
+                                    value.lock().unwrap().deep_clone(),
                                 ));
                             }
                         }
@@ -359,7 +359,7 @@ pub trait Datamodel {
                             Ok(value) => {
                                 values.push(ParamPair::new_moved(
                                     param.name.clone(),
-                                    value.lock().unwrap().clone(),
+                                    value.lock().unwrap().deep_clone(),
                                 ));
                             }
                         }
@@ -1015,6 +1015,25 @@ impl Display for Data {
 }
 
 impl Data {
+    /// A copy that shares nothing with the original.\
+    /// `clone()` copies the elements of arrays and maps by reference (they are `DataArc`s); data that
+    /// leave the session (event payloads, invoke parameters) must not change when the original does.
+    pub fn deep_clone(&self) -> Data {
+        match self {
+            Data::Array(a) => Data::Array(
+                a.iter()
+                    .map(|e| create_data_arc(e.lock().unwrap().deep_clone()))
+                    .collect(),
+            ),
+            Data::Map(m) => Data::Map(
+                m.iter()
+                    .map(|(k, v)| (k.clone(), create_data_arc(v.lock().unwrap().deep_clone())))
+                    .collect(),
+            ),
+            other => other.clone(),
+        }
+    }
+
     pub fn as_number(&self) -> f64 {
         match self {
             Data::Integer(v) => *v as f64,
